@@ -83,6 +83,10 @@ type Exec struct {
 	renames        map[string]string   // old local name -> new name, learned from re-bound anchors
 	renamesLearned bool
 	loopMap        map[ast.Stmt]int // current loop -> ordinal in the baseline source (0 = none)
+	subRegions     map[ast.Stmt]*subRegion // first statement of a sub-region used modularly ("uses")
+	established    map[string]bool         // "TARGET.name": precondition asserted inside this unit (evidence)
+	establishedAt  map[string]map[token.Pos]bool // "FUNC.name" -> call sites at which this unit asserts it
+	modularUsed    map[string]bool         // notes for the evidence: postconditions of sub-regions assumed here
 }
 
 func NewExec(prog *Program, cs *ContractSet, unit *FuncUnit, uc *UnitContract) *Exec {
@@ -1184,10 +1188,20 @@ func (o *Outcomes) absorb(p Outcomes) {
 func (x *Exec) execBlock(stmts []ast.Stmt, st *State) Outcomes {
 	var out Outcomes
 	cur := st
-	for _, s := range stmts {
+	for i := 0; i < len(stmts); i++ {
+		s := stmts[i]
 		if cur == nil || cur.pc.IsFalse() {
 			cur = nil
 			break
+		}
+		if x.inlineDepth == 0 && len(x.subRegions) > 0 {
+			if sr := x.subRegions[s]; sr != nil && i+len(sr.stmts) <= len(stmts) && stmts[i+len(sr.stmts)-1] == sr.stmts[len(sr.stmts)-1] {
+				o := x.execSubRegion(sr, cur)
+				out.absorb(o)
+				cur = o.Normal
+				i += len(sr.stmts) - 1
+				continue
+			}
 		}
 		o := x.execStmt(s, cur, "")
 		out.absorb(o)
